@@ -221,14 +221,22 @@ func runLife(ops []lifeOp, tm lifeTiming) ([]lifeObs, error) {
 // three recorded defects of the pinned code, named.
 func judge(ops []lifeOp, obs []lifeObs) (deviation, slug string) {
 	started := false
-	deadConn := "" // the behaviour of an earlier Start that failed after the connection was made
+	closes, waiting := 0, 0 // close call-backs due so far (one per client created and closed), Wait calls that must still block
+	deadConn := ""          // the behaviour of an earlier Start that failed after the connection was made
 	for i, o := range obs {
 		op := ops[i]
 		wantClass, wantStarted := "returned", started
+		endSession := func() {
+			if started {
+				closes++
+				waiting = 0
+			}
+			started = false
+		}
 		switch op.Op {
 		case "start", "stopstart":
 			if op.Op == "stopstart" {
-				started = false
+				endSession()
 			}
 			switch {
 			case started:
@@ -237,28 +245,41 @@ func judge(ops []lifeOp, obs []lifeObs) (deviation, slug string) {
 				wantClass, wantStarted = "ok", true
 			case op.Beh == bDropInCfg:
 				wantClass, wantStarted = "ok", false
+				closes++
+			case op.Beh == bUnreachable:
+				wantClass, wantStarted = "err", false
 			default:
 				wantClass, wantStarted = "err", false
+				closes++ // the client of the failed handshake is closed: its notification is delivered
 			}
 		case "stop", "lose":
+			endSession()
 			wantStarted = false
+		case "wait":
+			if started {
+				waiting++
+			}
 		}
 		ws := "false"
 		if wantStarted {
 			ws = "true"
 		}
-		if o.Class == wantClass && o.Started == ws {
+		if o.Class == wantClass && o.Started == ws && o.Closes == closes && o.Waiting == waiting {
 			started = wantStarted
 			if (op.Op == "start" || op.Op == "stopstart") && o.Class == "err" && op.Beh != bUnreachable && op.Beh != bHealthy && op.Beh != bDropInCfg {
 				deadConn = op.Beh
 			}
 			continue
 		}
-		deviation = fmt.Sprintf("operation %d %s: observed class=%s started=%s, the property demands class=%s started=%s", i, op, o.Class, o.Started, wantClass, ws)
+		deviation = fmt.Sprintf("operation %d %s: observed class=%s started=%s close call-backs=%d blocked waiters=%d, the property demands class=%s started=%s close call-backs=%d blocked waiters=%d",
+			i, op, o.Class, o.Started, o.Closes, o.Waiting, wantClass, ws, closes, waiting)
+		isStart := op.Op == "start" || op.Op == "stopstart"
 		switch {
 		case o.Class == "blocked" && op.Beh == bDropAfterReg:
 			slug = "start-blocks-on-drop-before-configure"
-		case o.Class == "err" && wantClass == "ok" && deadConn != "":
+		case isStart && deadConn != "" && !started && o.Class == "err" && o.Started == "false":
+			// a Start on the connection a failed Start left behind: fails although the runtime is healthy,
+			// or (unreachable runtime) goes through the set-up on the dead connection and closes a client
 			slug = "dead-conn-reused-after-failed-start"
 		case op.Op == "stopstart" && o.Class == wantClass && wantStarted && o.Started == "false":
 			slug = "stale-close-tears-down-new-session"
